@@ -378,6 +378,85 @@ theorem primary_keys_unique (db : Tables) (hdb : db.keysOk) (prog : List Op) (sc
 theorem new_id_is_fresh (ids : List Nat) : nextId ids ∉ ids ∧ ∀ x ∈ ids, x < nextId ids :=
   ⟨nextId_not_mem ids, lt_nextId ids⟩
 
+/-! ### the scanner-level switch decides what is recorded
+
+  `nothing_when_implicit_off` above speaks of `ECU.implicit_logging` at the moment of a request.  What the user of a scanner
+  switches is `UDSScanner.implicit_logging` - possibly in the constructor, before the database handler and the ECU object
+  exist.  These theorems say that, in the lifecycle as coded, the two agree at every request. -/
+
+/-- **the ECU object follows the scanner-level switch.**  Whatever the scanner assigns in its constructor (`pre`) and
+    between the opening of the database and `setup()` (`mid`): once `setup()` has created the ECU object and applied the stored
+    value, every later request - in any order with further assignments and applications - is recorded exactly when the
+    scanner-level switch is on at that moment. -/
+theorem scanner_switch_governs_recording (pre mid rest : List LEvent)
+    (hpre : ∀ e ∈ pre, ∃ v, e = .set v) (hmid : ∀ e ∈ mid, ∃ v, e = .set v) (hrest : LEvent.createEcu ∉ rest) :
+    ∀ p ∈ flagsAt Flag.init (pre ++ [.openDb] ++ mid ++ [.createEcu, .apply] ++ rest), p.1 = p.2 := by
+  intro p hp
+  rw [flagsAt_append, flagsAt_append, flagsAt_append, flagsAt_append] at hp
+  have h1 := sets_only Flag.init pre hpre
+  have h2 := sets_only ((Flag.init.run pre).run [.openDb]) mid hmid
+  simp only [h1.1, List.nil_append] at hp
+  have hdb : (((Flag.init.run pre).run [.openDb]).run mid).db = true :=
+    h2.2.1.trans (by simp [Flag.run, Flag.step])
+  have hecu0 : (Flag.init.run pre).ecu = none := h1.2.2 rfl
+  have hecu : (((Flag.init.run pre).run [.openDb]).run mid).ecu = none :=
+    h2.2.2 (by simpa [Flag.run, Flag.step] using hecu0)
+  have hsync : ((((Flag.init.run pre).run [.openDb]).run mid).run [.createEcu, .apply]).Synced := by
+    show (((((Flag.init.run pre).run [.openDb]).run mid).step .createEcu).step .apply).Synced
+    exact ⟨by simpa [Flag.step] using hdb, by simp [Flag.step]⟩
+  have hx : Flag.init.run (pre ++ [.openDb] ++ mid ++ [.createEcu, .apply]) =
+      (((Flag.init.run pre).run [.openDb]).run mid).run [.createEcu, .apply] := by
+    simp [Flag.run, List.foldl_append]
+  have hy : Flag.init.run (pre ++ [.openDb] ++ mid) = ((Flag.init.run pre).run [.openDb]).run mid := by
+    simp [Flag.run, List.foldl_append]
+  have hz : Flag.init.run (pre ++ [.openDb]) = (Flag.init.run pre).run [.openDb] := by
+    simp [Flag.run, List.foldl_append]
+  rw [hx, hy, hz, h2.1] at hp
+  simp only [flagsAt, List.nil_append, List.append_nil] at hp
+  exact flagsAt_synced _ hsync rest hrest p hp
+
+/-- **`setup()` of the working tree applies the switch before its first request.**  With the statement order of
+    `UDSScanner.setup()` regenerated from the AST: whatever the scanner assigned before (`pre` in its constructor, `mid`
+    after the database was opened), every request made by `setup()` itself (ecu_reset, the `wait_for_ecu` pings, the
+    tester-present task, the property reads) and every request of `main()` / `teardown()` afterwards (`rest`) is recorded
+    exactly when the scanner-level switch is on.  In particular a scanner that switches implicit logging off in its
+    constructor records nothing. -/
+theorem setup_requests_follow_switch (pre mid rest : List LEvent)
+    (hpre : ∀ e ∈ pre, ∃ v, e = .set v) (hmid : ∀ e ∈ mid, ∃ v, e = .set v) (hrest : LEvent.createEcu ∉ rest) :
+    ∀ p ∈ flagsAt Flag.init (pre ++ [.openDb] ++ mid ++ tokenEvents Gen.C11Tables.setupEvents ++ rest), p.1 = p.2 := by
+  intro p hp
+  have hok : appliedBeforeRequest Gen.C11Tables.setupEvents = true := by decide
+  rw [flagsAt_append, flagsAt_append, flagsAt_append, flagsAt_append] at hp
+  have h1 := sets_only Flag.init pre hpre
+  have h2 := sets_only ((Flag.init.run pre).run [.openDb]) mid hmid
+  have hdb : (((Flag.init.run pre).run [.openDb]).run mid).db = true :=
+    h2.2.1.trans (by simp [Flag.run, Flag.step])
+  have hecu0 : (Flag.init.run pre).ecu = none := h1.2.2 rfl
+  have hecu : (((Flag.init.run pre).run [.openDb]).run mid).ecu = none :=
+    h2.2.2 (by simpa [Flag.run, Flag.step] using hecu0)
+  have hy : Flag.init.run (pre ++ [.openDb] ++ mid) = ((Flag.init.run pre).run [.openDb]).run mid := by
+    simp [Flag.run, List.foldl_append]
+  have hz : Flag.init.run (pre ++ [.openDb]) = (Flag.init.run pre).run [.openDb] := by
+    simp [Flag.run, List.foldl_append]
+  have hx : Flag.init.run (pre ++ [.openDb] ++ mid ++ tokenEvents Gen.C11Tables.setupEvents) =
+      (((Flag.init.run pre).run [.openDb]).run mid).run (tokenEvents Gen.C11Tables.setupEvents) := by
+    simp [Flag.run, List.foldl_append]
+  have hs := applied_tokens _ hok _ hdb hecu
+  rw [hx, hy, hz, h1.1, h2.1] at hp
+  simp only [flagsAt, List.nil_append, List.mem_append] at hp
+  rcases hp with hp | hp
+  · exact hs.1 p hp
+  · exact flagsAt_synced _ hs.2 rest hrest p hp
+
+/-- the setter, `_apply_implicit_logging_setting`, the default of the ECU object and the order inside `entry_point()` of the
+    working tree are the modelled ones (`Flag.step`) -/
+theorem switch_anchors :
+    Gen.C11Tables.setterBody =
+      ["self._implicit_logging = value", "if self.db_handler is not None:  self._apply_implicit_logging_setting()"] ∧
+    Gen.C11Tables.applyBody = ["self.ecu.implicit_logging = self._implicit_logging"] ∧
+    Gen.C11Tables.ecuFlagDefault = "True" ∧
+    Gen.C11Tables.entryPointOrder = ["self._db_insert_run_meta", "self.run", "self._db_finish_run_meta"] := by decide
+
 /-! ### tables regenerated from the working tree -/
 
 /-- the limits the model's `classify` uses are those of the live response classes -/
@@ -546,6 +625,20 @@ example :
     let s := finishWithGap (mexec (MSys.init [[mx1], [mx2]]) [.call 0, .call 1]) 0 [.finish 1]
     s.wire = [(0, [0x10, 0x03]), (1, [0x3E, 0x00])] ∧
     (afterDisconnectM s).map (·.req) = [[0x3E, 0x00], [0x10, 0x03]] := by decide
+
+/-! #### the scanner-level switch: witnesses -/
+
+/-- switched off in the constructor, on again in `main()` after two requests: (used, asked for) per request -/
+example :
+    flagsAt Flag.init ([.set false] ++ [.openDb] ++ [] ++ [.createEcu, .apply] ++ [.request, .request, .set true, .request]) =
+      [(false, false), (false, false), (true, true)] := by decide
+
+/-- why `setup()` has to apply the stored value before its first request: without it the ECU object still has its own
+    default when `setup()` sends its requests - they are recorded although the scanner had switched logging off -/
+example :
+    flagsAt Flag.init ([.set false, .openDb] ++ tokenEvents ["create-ecu", "insert_scan_run", "request", "request", "apply"]) =
+      [(true, false), (true, false)] ∧
+    appliedBeforeRequest ["create-ecu", "insert_scan_run", "request", "request", "apply"] = false := by decide
 
 /-! #### the other tables: witnesses -/
 
